@@ -17,6 +17,7 @@ T2Spec == TInit /\ [][T2Next]_tvars
 
 \* ---- verdict clause (C15): after any history every time scale maps the two instants of the domain it reports
 \*      exactly onto the two end points of the range it reports
+C15_CallsComplete == l > 1 => Last.err = ""
 C15_EndpointsMapAfterHistory == l > 1 => \A s \in 1..Len(Last.obs) : Last.obs[s].e0 = 1 /\ Last.obs[s].e1 = 1
 \* ... and invert takes the range end points back to the domain end points the scale reports (to within a millisecond)
 C15_InvertAfterHistory == l > 1 => \A s \in 1..Len(Last.obs) : Last.obs[s].v0 = 1 /\ Last.obs[s].v1 = 1
